@@ -65,6 +65,62 @@ def run_human_min(scratch):
     return out
 
 
+def run_dyn_probe(scratch, group):
+    """Tie of YarlModel/Dyn.lean (Python-level dispatch: non-URL comparisons, wrong-typed arguments, query argument kinds) to
+    the code: the probe table is evaluated by the Lean model (`lake env lean`) and by the real library on both backends; the
+    rows of the given property group must agree."""
+    out = {"failures": [], "stats": {}, "samples": [], "notes": []}
+    script = os.path.join(SUB, "dyn_probe.py")
+    try:
+        src = subprocess.run([core.PY, script, "lean", "c"], capture_output=True, text=True, timeout=120)
+        if src.returncode != 0:
+            out["notes"].append("dyn probe: could not generate the Lean table: " + src.stderr[-200:])
+            return out
+        lean_file = os.path.join(scratch.dir, "dyn_probe.lean")
+        open(lean_file, "w").write(src.stdout)
+        r = subprocess.run(["lake", "env", "lean", lean_file], cwd=core.LEAN, capture_output=True, text=True, timeout=600)
+        model = [l for l in r.stdout.split("\n") if l.strip()]
+        rows = subprocess.run([core.PY, script, "rows"], capture_output=True, text=True, timeout=120).stdout.split("\n")
+        rows = [l for l in rows if l.strip()]
+        if r.returncode != 0 or len(model) != len(rows):
+            out["notes"].append("dyn probe: the Lean model did not evaluate the table (%d lines for %d rows): %s" % (len(model), len(rows), (r.stdout + r.stderr)[-300:]))
+            out["failures"].append({"what": "YarlModel/Dyn.lean does not evaluate the probe table", "class": "tie-broken-dyn", "input": "dyn probe"})
+            return out
+    except Exception as ex:  # noqa
+        out["notes"].append("dyn probe unavailable: %r" % (ex,))
+        return out
+
+    def grp(entry):
+        if entry in ("eq", "ne", "lt", "le", "gt", "ge"):
+            return "C10"
+        return "C12" if "query" in entry else "C19"
+    n = 0
+    for b in _backends(scratch):
+        env = dict(os.environ)
+        env["PYTHONPATH"] = scratch.dir
+        env["PYTHONDONTWRITEBYTECODE"] = "1"
+        if b == "py":
+            env["YARL_NO_EXTENSIONS"] = "1"
+        else:
+            env.pop("YARL_NO_EXTENSIONS", None)
+        rr = subprocess.run([core.PY, script, "real"], capture_output=True, text=True, env=env, timeout=300, cwd=scratch.dir)
+        real = [l for l in rr.stdout.split("\n") if l.strip()]
+        if rr.returncode != 0 or len(real) != len(rows):
+            out["failures"].append({"what": f"dyn probe ({b}) died or printed {len(real)} lines for {len(rows)} rows: {rr.stderr[-300:]}", "class": "crash", "backend": b, "input": "dyn probe"})
+            continue
+        for row, m, x in zip(rows, model, real):
+            entry = row.split(" | ", 1)[0]
+            if grp(entry) != group:
+                continue
+            n += 1
+            if m != x:
+                out["failures"].append({"what": f"{row}: the library answers {x!r}, the model (YarlModel/Dyn.lean) {m!r}", "class": "dyn-dispatch", "backend": b, "input": row})
+    out["stats"] = {"dyn_probe_rows": n, "evaluations": n}
+    out["samples"] = [{"dyn_probe_rows_checked": n}]
+    out["failures"] = out["failures"][:10]
+    return out
+
+
 def build_faultalloc():
     d = os.path.join(core.VERIF, "harness", "build")
     os.makedirs(d, exist_ok=True)
